@@ -10,7 +10,7 @@
    parse_adfNN (write_adfNN t) = t are checked case by case (model run by Coq on generated files), not proved. *)
 Require Import Cherab.Common.Qx.
 Require Import Cherab.Model.C08_Text Cherab.Model.C08_Adf.
-Require Import Cherab.Proofs.C08_Records Cherab.Proofs.C08_Tables.
+Require Import Cherab.Proofs.C08_Records Cherab.Proofs.C08_Tables Cherab.Proofs.C08_Files Cherab.Proofs.C08_Numbers.
 From Coq Require Import Ascii String.
 
 (* ADF12 / ADF21 / ADF22 data records: for every record width p >= 1 and every number of 9-character fields
@@ -54,7 +54,7 @@ Print Assumptions C08_adf2x_axis_order.
 (* charge-state convention of install_adf11*: scd / plt / pls blocks Z1 are stored under Z1 - 1, the others under Z1 *)
 Theorem C08_adf11_charge_convention :
   forall t z1, cherab_charge t z1 = match t with Scd | Plt | Pls => (z1 - 1)%Z | _ => z1 end.
-Proof. intros [] z1; unfold cherab_charge, charge_correction; lia. Qed.
+Proof. intros [] z1; unfold cherab_charge; cbn; lia. Qed.
 Print Assumptions C08_adf11_charge_convention.
 
 (* keyed tables (charge states, transitions): the last block written under a key is the one returned, the other
@@ -93,6 +93,113 @@ Theorem C08_adf11_header_mismatch_rejected :
 Proof. exact adf11_header_mismatch. Qed.
 Print Assumptions C08_adf11_header_mismatch_rejected.
 
+(* FILE LEVEL, ADF21 / ADF22: a whole file as the writer model lays it out (header scalars at their columns, any free text
+   after them, any separator lines, any grid sizes, any trailing lines) is parsed to exactly the numbers its tokens denote,
+   with the documented conventions: density x 1e6, coefficients x norm, sen[i_eb][i_dt] (see C08_adf2x_axis_order).
+   Text -> number enters through the hypotheses parse_int / parse_float / floats_of on the printed tokens. *)
+Theorem C08_adas2x_file_roundtrip :
+  forall (zt svref neb4 ndt4 tref ntt4 eref dref t1 t3 t5 d1 d2 d3 d4 d5 d6 : str) (a0 a5 b0 : Ascii.ascii)
+         (eb dt tt svt : list str) (sv : list (list str)) (rest : list str)
+         (zt_v : Z) (svref_v tref_v eref_v dref_v : Q) (eb_v dt_v tt_v svt_v : list Q) (sv_v : list (list Q)),
+  List.length zt = 2%nat -> List.length svref = 9%nat -> List.length neb4 = 4%nat -> List.length ndt4 = 4%nat ->
+  List.length tref = 9%nat -> List.length ntt4 = 4%nat -> List.length eref = 9%nat -> List.length dref = 9%nat ->
+  Forall len9 eb -> Forall len9 dt -> Forall len9 tt -> Forall len9 svt ->
+  Forall (column_ok (List.length eb)) sv -> List.length sv = List.length dt -> List.length svt = List.length tt ->
+  parse_int zt = Some zt_v ->
+  parse_int neb4 = Some (Z.of_nat (List.length eb)) -> parse_int ndt4 = Some (Z.of_nat (List.length dt)) ->
+  parse_int ntt4 = Some (Z.of_nat (List.length tt)) ->
+  parse_float svref = Some svref_v -> parse_float tref = Some tref_v ->
+  parse_float eref = Some eref_v -> parse_float dref = Some dref_v ->
+  floats_of eb = Some eb_v -> floats_of dt = Some dt_v -> floats_of tt = Some tt_v -> floats_of svt = Some svt_v ->
+  mapM floats_of sv = Some sv_v ->
+  forall norm : Q,
+  parse_adas2x norm (write_adas2x zt svref neb4 ndt4 tref ntt4 eref dref t1 t3 t5 d1 d2 d3 d4 d5 d6 a0 a5 b0 eb dt tt svt sv rest) =
+  Ok [ {| e_keys := [];
+          e_shape := [zlen eb; zlen dt; zlen tt];
+          e_vals := [ eb_v; scale per_cm3 dt_v; tt_v; scale norm (columns_to_rows (List.length eb) sv_v); scale norm svt_v;
+                      [eref_v; Qred (per_cm3 * dref_v)%Q; tref_v; Qred (norm * svref_v)%Q] ] |} ].
+Proof. exact adas2x_file_roundtrip. Qed.
+Print Assumptions C08_adas2x_file_roundtrip.
+
+(* ADF15 token streaming (the three `while n != num` loops): records of padded tokens, none empty, are consumed record by
+   record until exactly n values have been read; the stream is left after the last record *)
+Theorem C08_take_vals_stream :
+  forall recs rest n cnt acc, Forall rec_ok recs -> (cnt + List.length (List.concat (map snd recs)) = n)%nat ->
+  take_vals (map (fun rv => tok_line (fst rv)) recs ++ rest) n cnt acc = Ok (acc ++ List.concat (map snd recs), rest).
+Proof. exact take_vals_stream. Qed.
+Print Assumptions C08_take_vals_stream.
+
+(* BLOCK LEVEL, ADF15: a block whose header carries the requested ISEL and the counts, followed by its density, temperature
+   and coefficient records (any values per line), yields the file's numbers: density x 1e6, coefficient x 1e-6, row-major
+   (density, temperature); with C08_block_lookup_found this holds wherever the block stands in the file.  The header line
+   enters through its regex captures (hypotheses). *)
+Theorem C08_adf15_block_roundtrip :
+  forall rx bn h g dens temps rates rest more,
+  re_match true (r15_block rx) h = Some g ->
+  parse_int (get_cap 4 g) = Some bn ->
+  parse_int (get_cap 1 g) = Some (Z.of_nat (List.length (List.concat (map snd dens)))) ->
+  parse_int (get_cap 2 g) = Some (Z.of_nat (List.length (List.concat (map snd temps)))) ->
+  Forall rec_ok dens -> Forall rec_ok temps -> Forall rec_ok rates ->
+  List.length (List.concat (map snd rates)) =
+    (List.length (List.concat (map snd dens)) * List.length (List.concat (map snd temps)))%nat ->
+  extract_rate rx ((h :: map (fun rv => tok_line (fst rv)) dens ++ map (fun rv => tok_line (fst rv)) temps
+                       ++ map (fun rv => tok_line (fst rv)) rates ++ rest) :: more) bn
+  = Ok ([Z.of_nat (List.length (List.concat (map snd dens))); Z.of_nat (List.length (List.concat (map snd temps)))],
+        [scale per_cm3 (List.concat (map snd dens)); List.concat (map snd temps); scale cm3 (List.concat (map snd rates))]).
+Proof. exact adf15_block_roundtrip. Qed.
+Print Assumptions C08_adf15_block_roundtrip.
+
+(* install.py as tables regenerated from the source (coq/Gen/C08/Layout.v proves dispatch_ok / wiring_ok of the current
+   tables): every install_files branch calls the installer named after its key and every kind has exactly one branch;
+   every install_adf11<t> hands file type <t> to the notation change and writes to the repository table of that type *)
+Theorem C08_dispatch_table_sound :
+  forall t, dispatch_ok t = true ->
+  (forall k f, In (k, f) t -> f = S_ "install_" ++ k) /\
+  (forall k, In k adf_kinds -> List.length (filter (fun kf => streqb k (fst kf)) t) = 1%nat).
+Proof. exact dispatch_sound. Qed.
+Print Assumptions C08_dispatch_table_sound.
+
+Theorem C08_adf11_wiring_sound :
+  forall t, wiring_ok t = true ->
+  forall fn ft upd, In (fn, (ft, upd)) t -> fn = S_ "install_adf11" ++ ft /\ In (ft, upd) adf11_updates.
+Proof. exact wiring_sound. Qed.
+Print Assumptions C08_adf11_wiring_sound.
+
+(* thermal-CX blocks of an ADF15 file are stored as a 3-D table whose two donor-temperature planes both hold the file's
+   2-D values (install.py: _thermalcx_adf15_2dto3d_converter) *)
+Theorem C08_thermalcx_planes :
+  forall rate i k, (i < List.length rate)%nat -> (k < List.length thermalcx_td)%nat ->
+  nth (i * List.length thermalcx_td + k) (flat_map (fun r => map (fun _ => r) thermalcx_td) rate) 0%Q = nth i rate 0%Q.
+Proof. exact thermalcx_axis. Qed.
+Print Assumptions C08_thermalcx_planes.
+
+(* TEXT -> NUMBER on the token shapes the FORTRAN formats print: the models' int()/float() return the decimal value of the
+   printed digits (Horner evaluation of the digit string, scaled by the power of ten), exactly.  These discharge the
+   parse_int / parse_float hypotheses of the file-level theorems for such tokens.  Outside Coq remains only that CPython's
+   float() is the double nearest to that decimal value (compared at 2^-50 by the correspondence). *)
+Theorem C08_parse_int_digits :
+  forall pad ds d, Forall (fun c => is_ws c = true) pad -> Forall digitc ds -> digitc d ->
+  parse_int (pad ++ ds ++ [d]) = Some (horner 0 (ds ++ [d])).
+Proof. exact parse_int_digits. Qed.
+Print Assumptions C08_parse_int_digits.
+
+Theorem C08_parse_float_fixed :
+  forall neg i0 ip fp d, digitc i0 -> Forall digitc ip -> Forall digitc fp -> digitc d ->
+  parse_float (sgn neg ++ (i0 :: ip) ++ "."%char :: fp ++ [d]) =
+  Some (Qred (signed neg (inject_Z (horner 0 ((i0 :: ip) ++ fp ++ [d])) * Qpower (10 # 1) (0 - Z.of_nat (List.length (fp ++ [d])))))).
+Proof. exact parse_float_fixed. Qed.
+Print Assumptions C08_parse_float_fixed.
+
+Theorem C08_parse_float_exp :
+  forall (neg : bool) i0 ip fp ec (eneg : bool) esign ed e0,
+  digitc i0 -> Forall digitc ip -> Forall digitc fp -> aeqb (lower ec) "e"%char = true ->
+  esign = (if eneg then ["-"%char] else ["+"%char]) -> Forall digitc ed -> digitc e0 ->
+  parse_float (sgn neg ++ (i0 :: ip) ++ "."%char :: fp ++ ec :: esign ++ ed ++ [e0]) =
+  Some (Qred (signed neg (inject_Z (horner 0 ((i0 :: ip) ++ fp)) *
+                          Qpower (10 # 1) ((if eneg then - horner 0 (ed ++ [e0]) else horner 0 (ed ++ [e0]))%Z - Z.of_nat (List.length fp))))).
+Proof. exact parse_float_exp. Qed.
+Print Assumptions C08_parse_float_exp.
+
 (* non-vacuity: eleven 9-character fields in records of 8 (one full, one short record); a padded token stream
    over two lines; an ADF11 first line for carbon requested as neon *)
 Example C08_nonvacuous :
@@ -107,4 +214,17 @@ Proof.
   - repeat constructor; discriminate.
   - exists (S_ "    6   24   30    1    6     /CARBON             /GCR PROJECT"), (S_ "/CARBON"), [].
     split; [vm_compute; reflexivity | vm_compute; discriminate].
+Qed.
+
+(* non-vacuity of the file-level theorems: tokens as the writers print them satisfy the text -> number hypotheses *)
+Example C08_files_nonvacuous :
+  let f := S_ "1.234D-05" in
+  parse_int (S_ " 6") = Some 6%Z /\ parse_int (S_ "   1") = Some (Z.of_nat (List.length [f])) /\
+  (exists v, parse_float (S_ "6.049E-08") = Some v) /\ (exists vs, floats_of [f] = Some vs) /\ column_ok 1 [f] /\
+  rec_ok ([(S_ " ", S_ "1.00E+11"); (S_ " ", S_ "2.50E+11")], [(100000000000 # 1)%Q; (250000000000 # 1)%Q]).
+Proof.
+  cbv zeta. repeat split; try (vm_compute; reflexivity); try (eexists; vm_compute; reflexivity).
+  - repeat constructor.
+  - repeat constructor; discriminate.
+  - discriminate.
 Qed.
